@@ -98,6 +98,11 @@ class Bip32Slip10EcdsaDerivator(IBip32KeyDerivator):
         # Construct new key secret from iL and current private key
         il_int = BytesUtils.ToInteger(il_bytes)
         priv_key_int = BytesUtils.ToInteger(priv_key_bytes)
+        # SLIP-0010: if iL >= n or the resulting key is zero, re-hash with 0x01 || iR || index
+        while il_int >= curve.Order() or (il_int + priv_key_int) % curve.Order() == 0:
+            il_bytes, ir_bytes = HmacSha512.QuickDigestHalves(priv_key.ChainCode().ToBytes(),
+                                                              b"\x01" + ir_bytes + index.ToBytes())
+            il_int = BytesUtils.ToInteger(il_bytes)
         new_priv_key_bytes = IntegerUtils.ToBytes((il_int + priv_key_int) % curve.Order(),
                                                   bytes_num=curve.PrivateKeyClass().Length())
 
@@ -127,6 +132,11 @@ class Bip32Slip10EcdsaDerivator(IBip32KeyDerivator):
         il_bytes, ir_bytes = HmacSha512.QuickDigestHalves(pub_key.ChainCode().ToBytes(),
                                                           data_bytes)
         il_int = BytesUtils.ToInteger(il_bytes)
+        # SLIP-0010: if iL >= n, re-hash with 0x01 || iR || index
+        while il_int >= pub_key.Curve().Order():
+            il_bytes, ir_bytes = HmacSha512.QuickDigestHalves(pub_key.ChainCode().ToBytes(),
+                                                              b"\x01" + ir_bytes + index.ToBytes())
+            il_int = BytesUtils.ToInteger(il_bytes)
 
         # Get a new public key point: pub_key_point + G*iL
         new_pub_key_point = pub_key.Point() + (pub_key.Curve().Generator() * il_int)
